@@ -72,8 +72,9 @@ probes! {
     P_CLONE_PANIC_FIRED = 39, "panic inside an element's clone() while cloning a container";
     P_SWAP_TWIN = 40, "iterator swapped with the twin iterator (both change address)";
     P_DEFAULT_PROBE_ACTIVE = 41, "Default probe found IntoIter<Tok>: Default";
+    P_FROMITER_GAP = 42, "from_iter over a source that is not fused (None once, more elements behind it)";
 }
-pub const N_PROBES: usize = 42;
+pub const N_PROBES: usize = 43;
 
 pub const N_OPK: usize = 80;
 
